@@ -450,6 +450,8 @@ where
                 A::default_or_panic(),
             ),
             ChunkClass::NonDummy(mut chunk) => {
+                let original_chunk = chunk;
+
                 while let Some(next_chunk) = chunk.next() {
                     chunk = next_chunk;
 
@@ -464,7 +466,15 @@ where
                 }
 
                 // there is no chunk that fits, we need a new chunk
-                chunk.append_for(*layout)
+                let new_chunk = chunk.append_for(*layout);
+
+                if new_chunk.is_err() {
+                    // Nothing was allocated, so we must stay on the chunk we started from.
+                    // Prepared allocations (`MutBumpVec` etc.) still live in that chunk.
+                    self.chunk.set(original_chunk.raw);
+                }
+
+                new_chunk
             }
         }?;
 
